@@ -30,6 +30,7 @@ func c15(c *Ctx) {
 	conds := c.populationConditions()
 	r.Rule("R15.T", "every loop whose bound comes from the wire leaves on the sticky decoder error", 2)
 	c.loopTermination("R15.T", fns)
+	c.readerLoops("R15.T", fns)
 	n, d, a := c.runCensus("R15.C", fns, nil, conds)
 	r.Extra["census_functions"] = len(fns)
 	r.Extra["census_sites"] = n
@@ -120,4 +121,96 @@ func leadsOut(b *ssa.BasicBlock, cyc map[*ssa.BasicBlock]bool) bool {
 		}
 	}
 	return false
+}
+
+// readerLoops (R15.T): a loop around a Read must end when the reader keeps failing.  Readers keep their error
+// (gzip, flate, bufio: every later Read returns 0, err): with n = 0 and err a non-nil error that equals no
+// sentinel, forcing the loop's tests on n and err must leave no cycle through the Read.
+func (c *Ctx) readerLoops(rule string, fns []*ssa.Function) {
+	for _, f := range fns {
+		k := 0
+		for _, cs := range an.Calls(f) {
+			call, ok := cs.Instr.(*ssa.Call)
+			if !ok {
+				continue
+			}
+			mname := ""
+			if cs.Common.IsInvoke() {
+				mname = cs.Common.Method.Name()
+			} else if sf := an.StaticCallee(cs.Common); sf != nil && sf.Signature.Recv() != nil {
+				mname = sf.Name()
+			}
+			if mname != "Read" || call.Type().String() != "(n int, err error)" && call.Type().String() != "(int, error)" {
+				continue
+			}
+			rb := cs.Block
+			if !reachesBlockStrict(rb, rb) {
+				continue // not in a loop
+			}
+			k++
+			key := sprintf("read-loop:%s#%d", an.ShortName(f), k)
+			var nV, errV ssa.Value
+			if call.Referrers() != nil {
+				for _, rf := range *call.Referrers() {
+					if ex, ok := rf.(*ssa.Extract); ok {
+						if ex.Index == 0 {
+							nV = ex
+						} else {
+							errV = ex
+						}
+					}
+				}
+			}
+			atom := func(v ssa.Value) (int64, bool) {
+				if nV != nil && v == nV {
+					return 0, true
+				}
+				return 0, false
+			}
+			decide := func(i *ssa.If) (int, bool) {
+				cd, ok := an.Classify(i)
+				if !ok {
+					return 0, false
+				}
+				edge := func(e an.Edge) (int, bool) { return e.Succ, true }
+				switch {
+				case cd.Kind == "nil" && errV != nil && cd.X == errV:
+					return edge(cd.EdgeWhen(false))
+				case cd.Kind == "eq" && errV != nil && (an.Unconv(cd.X) == errV || an.Unconv(cd.Y) == errV):
+					return edge(cd.EdgeWhen(false))
+				case strings.HasPrefix(cd.Kind, "call:errors.Is") && errV != nil && cd.X == errV:
+					return edge(cd.EdgeWhen(false))
+				}
+				if res, ok := an.EvalCond(i.Cond, atom); ok {
+					if res {
+						return 0, true
+					}
+					return 1, true
+				}
+				return 0, false
+			}
+			_, exec := an.ReachExec(f, nil, decide)
+			// a cycle through the Read block along executable edges?
+			seen := map[*ssa.BasicBlock]bool{}
+			var spin func(b *ssa.BasicBlock) bool
+			spin = func(b *ssa.BasicBlock) bool {
+				for si, s := range b.Succs {
+					if !exec[an.Edge{From: b, Succ: si}] {
+						continue
+					}
+					if s == rb {
+						return true
+					}
+					if !seen[s] {
+						seen[s] = true
+						if spin(s) {
+							return true
+						}
+					}
+				}
+				return false
+			}
+			c.R.Check(!spin(rb), rule, key, c.pos(cs.Pos()), "with this Read returning (0, a persistent non-sentinel error) the loop can come back to the Read: a truncated or corrupt stream makes the decoder spin for ever")
+		}
+	}
 }
